@@ -1,5 +1,238 @@
-import KatdalModel.Model.LazyIndexer
+/-
+  C05 — HDF5-era lazy and concatenated indexers equal composed outer indexing.
+
+  "For any array-like source (including HDF5 datasets), first-stage selection, chain of
+   transforms and second-stage index made of integers, slices, boolean masks and strictly
+   increasing sequences of non-negative integers on any axes, the lazy indexer returns exactly
+   the transforms applied to source[first stage][second stage] under outer indexing, its shape
+   and dtype properties equal those of the full result, and an indexer that concatenates several
+   indexers along the first axis behaves like the same index applied to the concatenation of
+   their results.  Index forms it does not support (unsorted, repeated or negative integers in a
+   sequence) are rejected with an error, never answered with different data."
+
+  Model: KatdalModel/Model/LazyIndexer.lean (mirror of LazyIndexer.__init__/__getitem__ incl. the
+  contiguous-run decomposition and the 20 % span-and-postselect heuristic, and of
+  ConcatenatedLazyIndexer.__getitem__).  Spec: `LazyIx.spec1` = numpy's per-axis meaning of the
+  first stage composed with numpy's meaning of the second stage (`Index.composeList`).
+-/
+import KatdalModel.Lemmas.FirstStage
+import KatdalModel.Lemmas.Compose
 open Np Index LazyIx
+
 namespace C05
-theorem placeholder : (1 : Nat) = 1 := rfl
+
+theorem pairwise_ofNat (l : List Nat) (h : l.Pairwise (· < ·)) : (l.map Int.ofNat).Pairwise (· < ·) := by
+  induction l with
+  | nil => exact List.Pairwise.nil
+  | cons a t ih =>
+    obtain ⟨h1, h2⟩ := List.pairwise_cons.mp h
+    simp only [List.map_cons]
+    refine List.pairwise_cons.mpr ⟨?_, ih h2⟩
+    intro y hy
+    simp only [List.mem_map] at hy
+    obtain ⟨x, hx, rfl⟩ := hy
+    have := h1 x hx
+    simp only [Int.ofNat_eq_natCast]; omega
+
+theorem map_toNat_ofNat (l : List Nat) : (l.map Int.ofNat).map Int.toNat = l := by
+  induction l with
+  | nil => rfl
+  | cons a t ih => simp [ih]
+
+/-- what `LazyIndexer.__init__` stores for a supported first-stage index, versus numpy's meaning
+    of that index: there is a strictly increasing in-range list `L` of source positions such
+    that numpy selects exactly `L`, and `_lookup` is either `L` or `None` (then `L` = whole axis) -/
+theorem mkLookup_spec (n : Nat) (k1 : Ix) (hG : stage1InG n k1 = true) :
+    ∃ L : List Int, L.Pairwise (· < ·) ∧ (∀ x ∈ L, 0 ≤ x ∧ x < n) ∧
+      k1.resolve n = .ok (.many (L.map Int.toNat)) ∧
+      ((mkLookup n k1 = .ok none ∧ L = fullList n) ∨ mkLookup n k1 = .ok (some L)) := by
+  cases k1 with
+  | int i => simp [stage1InG] at hG
+  | slice a b c =>
+    simp only [stage1InG, decide_eq_true_eq] at hG
+    cases hi : sliceIndices n a b c with
+    | none =>
+      exfalso
+      unfold sliceIndices at hi
+      simp only at hi
+      split at hi
+      · omega
+      · simp at hi
+    | some t =>
+      obtain ⟨s, e, st⟩ := t
+      have hsl : sliceList n a b c = some (rangeList s e st) := by simp [sliceList, hi]
+      obtain ⟨hp, hb⟩ := sliceList_pos_spec hsl hG
+      refine ⟨rangeList s e st, hp, hb, by simp [Ix.resolve, hsl], ?_⟩
+      simp only [mkLookup, hi]
+      split
+      · rename_i heq
+        simp only [Prod.mk.injEq] at heq
+        obtain ⟨rfl, rfl, rfl⟩ := heq
+        exact Or.inl ⟨rfl, rfl⟩
+      · exact Or.inr rfl
+  | mask m =>
+    simp only [stage1InG, decide_eq_true_eq] at hG
+    obtain ⟨hp, hb⟩ := nonzero_spec m
+    by_cases hall : m.all id = true
+    · refine ⟨fullList n, rangeList_pos_pairwise 0 n 1 (by omega), ?_, ?_, ?_⟩
+      · intro x hx
+        have := rangeList_pos_bounds 1 (by omega) _ 0 n (Nat.le_refl _) x hx
+        omega
+      · simp only [Ix.resolve, hG, if_true, nonzero_all_true m hall]
+      · exact Or.inl ⟨by simp [mkLookup, hG, hall], rfl⟩
+    · refine ⟨(nonzero m).map Int.ofNat, pairwise_ofNat _ hp, ?_, ?_, ?_⟩
+      · intro x hx
+        simp only [List.mem_map] at hx
+        obtain ⟨k, hk, rfl⟩ := hx
+        have := hb k hk
+        simp only [Int.ofNat_eq_natCast]; omega
+      · simp only [Ix.resolve, hG, if_true, map_toNat_ofNat]
+      · exact Or.inr (by simp [mkLookup, hG, hall])
+  | list l =>
+    simp only [stage1InG, Bool.and_eq_true, List.all_eq_true, decide_eq_true_eq] at hG
+    obtain ⟨hinc, hlb⟩ := hG
+    exact ⟨l, (strictInc_iff_pairwise l).mp hinc, hlb,
+      by simp only [Ix.resolve, normList_nonneg n l hlb]; rfl, Or.inr rfl⟩
+
+/-- **C05, one axis, supported forms**: `LazyIndexer(src, k1)[k2]` reads exactly the source
+    positions that `src[k1][k2]` reads under numpy's per-axis meaning, for every first stage in
+    {positive-step slice, full-length mask, strictly increasing in-range list} and every second
+    stage in {int incl. negative, positive-step slice, mask incl. all-False, strictly increasing
+    in-range list} — whichever of the two internal read strategies is taken. -/
+theorem c05_axis (n n1 : Nat) (k1 k2 : Ix) (h1 : stage1InG n k1 = true)
+    (hn1 : initialShape1 n k1 = .ok n1) (h2 : stage2InG n1 k2 = true) :
+    getitem1 n k1 k2 = spec1 n k1 k2 := by
+  obtain ⟨L, hp, hb, hres, hlk⟩ := mkLookup_spec n k1 h1
+  unfold getitem1 spec1
+  rw [hres]
+  simp only [bind, Except.bind, List.length_map]
+  rcases hlk with ⟨hnone, hL⟩ | hsome
+  · -- `_lookup` is None
+    rw [hnone]
+    have hn : n1 = n := by
+      unfold initialShape1 at hn1
+      rw [hnone] at hn1
+      simp [bind, Except.bind, pure, Except.pure] at hn1
+      exact hn1.symm
+    subst hn
+    have := second_stage_full n1 k2 h2
+    simp only [bind, Except.bind] at this
+    rw [this, hL, fullList_length]
+    cases hr : k2.resolve n1 with
+    | error e => rfl
+    | ok s2 =>
+      simp only
+      exact (compose_full n1 s2 (resolve_valid n1 k2 s2 hr)).symm
+  · rw [hsome]
+    have hn : n1 = L.length := by
+      unfold initialShape1 at hn1
+      rw [hsome] at hn1
+      simp [bind, Except.bind, pure, Except.pure] at hn1
+      exact hn1.symm
+    subst hn
+    have := second_stage_lookup n L hp hb k2 h2
+    simp only [bind, Except.bind] at this
+    exact this
+
+/-- the advertised first-stage length is the number of positions numpy selects -/
+theorem c05_initial_shape (n : Nat) (k1 : Ix) (h1 : stage1InG n k1 = true) :
+    ∃ ks, k1.resolve n = .ok (.many ks) ∧ initialShape1 n k1 = .ok ks.length := by
+  obtain ⟨L, _, _, hres, hlk⟩ := mkLookup_spec n k1 h1
+  refine ⟨L.map Int.toNat, hres, ?_⟩
+  unfold initialShape1
+  rcases hlk with ⟨hnone, hL⟩ | hsome
+  · rw [hnone, hL]; simp [bind, Except.bind, pure, Except.pure, fullList_length]
+  · rw [hsome]; simp [bind, Except.bind, pure, Except.pure]
+
+/-- **Unsupported sequences are rejected**: with any supported first stage, a second-stage
+    integer list (entries in `-len .. len-1`, i.e. valid for numpy) whose *resolved* positions are
+    not strictly increasing — unsorted or repeated entries — raises TypeError; it is never
+    answered with data.  (A list with negative entries whose resolved positions happen to be
+    strictly increasing is answered exactly as numpy would, see `c05_axis`' proof; the
+    no-lookup/negative-entry combination is covered by the correspondence run only.) -/
+theorem c05_reject_unsorted (n : Nat) (L : List Int) (k1 : Ix) (l : List Int) (ks : List Nat) (vs : List Int)
+    (hlk : mkLookup n k1 = .ok (some L))
+    (hks : normList L.length l = .ok ks) (hvs : ks.mapM (getNat L) = .ok vs)
+    (hne : vs ≠ []) (hbad : strictInc vs = false) :
+    getitem1 n k1 (.list l) = .error .type := by
+  unfold getitem1
+  rw [hlk]
+  simp only [bind, Except.bind, mapThrough, indexList, hks, hvs, pure, Except.pure]
+  cases vs with
+  | nil => exact absurd rfl hne
+  | cons v t => simp [axisSelect, hbad]
+
+theorem c05_reject_unsorted_nolookup (n : Nat) (k1 : Ix) (l : List Int)
+    (hlk : mkLookup n k1 = .ok none) (hne : l ≠ []) (hbad : strictInc l = false) :
+    getitem1 n k1 (.list l) = .error .type := by
+  unfold getitem1
+  rw [hlk]
+  simp only [bind, Except.bind, mapThrough]
+  cases l with
+  | nil => exact absurd rfl hne
+  | cons v t => simp [axisSelect, hbad]
+
+/-- spec for all axes -/
+def specAll : List Nat → List Ix → List Ix → Except Err (List Sel)
+  | [], [], [] => .ok []
+  | n :: ns, a :: as, b :: bs => do
+    let s ← spec1 n a b
+    let r ← specAll ns as bs
+    pure (s :: r)
+  | _, _, _ => .error .index
+
+/-- every axis of the request is inside the supported grammar -/
+def allInG : List Nat → List Ix → List Ix → Bool
+  | [], [], [] => true
+  | n :: ns, a :: as, b :: bs =>
+    stage1InG n a &&
+    (match initialShape1 n a with
+     | .ok n1 => stage2InG n1 b
+     | .error _ => false) && allInG ns as bs
+  | _, _, _ => false
+
+/-- **C05, all axes**: the N-D indexer is the per-axis composition on every axis, hence (by
+    `Index.oindexSel` / `Index.oindexSel_map`) returns `T(src[k1][k2])` under outer indexing. -/
+theorem c05_getitem : ∀ (shape : List Nat) (k1 k2 : List Ix), allInG shape k1 k2 = true →
+    getitemAll shape k1 k2 = specAll shape k1 k2 := by
+  intro shape
+  induction shape with
+  | nil =>
+    intro k1 k2 h
+    cases k1 <;> cases k2 <;> simp_all [allInG, getitemAll, specAll]
+  | cons n ns ih =>
+    intro k1 k2 h
+    cases k1 with
+    | nil => simp [allInG] at h
+    | cons a as =>
+      cases k2 with
+      | nil => simp [allInG] at h
+      | cons b bs =>
+        simp only [allInG, Bool.and_eq_true] at h
+        obtain ⟨⟨h1, h2⟩, h3⟩ := h
+        cases hn1 : initialShape1 n a with
+        | error e => simp [hn1] at h2
+        | ok n1 =>
+          simp only [hn1] at h2
+          simp only [getitemAll, specAll, c05_axis n n1 a b h1 hn1 h2, ih as bs h3]
+
+/-- transforms are applied to the indexed result: an elementwise transform commutes with outer
+    indexing (restated from `Index.oindexSel_map` for the audit) -/
+theorem c05_transform {α β} (f : α → β) (a : NDArr α) (s : List Sel) :
+    oindexSel (a.map f) s = (oindexSel a s).map f := oindexSel_map f a s
+
+/-! ### Non-vacuity and witnesses -/
+
+example : allInG [6, 4] [.mask [true, false, true, true, false, true], .slice none none none]
+    [.list [1, 3], .int (-1)] = true := by decide
+example : getitemAll [6, 4] [.mask [true, false, true, true, false, true], .slice none none none]
+    [.list [1, 3], .int (-1)] = .ok [.many [2, 5], .one 3] := by decide
+-- dense selection (span-and-postselect strategy) and sparse selection (one slice per run)
+example : getitem1 10 (.slice none none none) (.list [1, 2, 5, 6]) = .ok (.many [1, 2, 5, 6]) := by decide
+example : getitem1 30 (.slice none none none) (.list [1, 2, 5, 6]) = .ok (.many [1, 2, 5, 6]) := by decide
+-- repeated equal entries are rejected (the defect repaired in /repo commit 35c2508)
+example : getitem1 6 (.slice none none none) (.list [2, 2]) = .error .type := by decide
+-- all-False mask is an empty selection (the defect repaired in /repo commit 51619a3)
+example : getitem1 3 (.slice none none none) (.mask [false, false, false]) = .ok (.many []) := by decide
+
 end C05
